@@ -3,35 +3,35 @@ From Verif Require Import Lib.Base Lib.Sx Lib.Err Lib.IO Model.Faults Proofs.Fau
 Open Scope N_scope.
 
 (* ---------- one transport Write, whatever the state of the transport ---------- *)
-Lemma wt_write_cases p w : p <> [] ->
-  exists m oe w', wt_write p w = (m, oe, w') /\ wt_err w' = wt_err w /\ m <= lenN p /\
+Lemma wt_write_cases p w : p <> [] -> wt_sticky w = true ->
+  exists m oe w', wt_write p w = (m, oe, w') /\ (wt_err w' = wt_err w /\ wt_sticky w' = true) /\ m <= lenN p /\
     wt_received w' = wt_received w ++ firstn (N.to_nat m) p /\
     ((oe = None /\ m = lenN p /\ wt_failed w' = false)
      \/ (wt_failed w' = true /\ (oe = Some (wt_err w) \/ (oe = None /\ m < lenN p /\ wt_err w = id_ShortWrite)))).
 Proof.
-  intros Hp. destruct (wt_failed w) eqn:Hf.
+  intros Hp Hst. destruct (wt_failed w) eqn:Hf.
   - exists 0, (Some (wt_err w)), w. rewrite wt_write_failed by exact Hf. cbn [N.to_nat firstn].
-    rewrite app_nil_r. split; [reflexivity|]. split; [reflexivity|]. split; [lia|]. split; [reflexivity|]. auto.
+    rewrite app_nil_r. split; [reflexivity|]. split; [auto|]. split; [lia|]. split; [reflexivity|]. auto.
   - destruct (wt_failat w) as [i|] eqn:Hfa.
     + destruct (N.eqb_spec i (wt_calls w)) as [->|Hne].
-      * destruct (wt_write_hit p w Hf Hfa) as (w' & Hw & Hf' & Hr & Ht).
+      * destruct (wt_write_hit p w Hf Hfa) as (w' & Hw & Hf' & Hr & Ht & Hs').
         exists (accepted (wt_m w) (wt_term w) p), (wt_term w), w'.
-        split; [exact Hw|]. split; [unfold wt_err; now rewrite Ht|].
-        split; [apply accepted_le|]. split; [exact Hr|]. right. split; [exact Hf'|].
+        split; [exact Hw|]. split; [split; [unfold wt_err; now rewrite Ht|congruence]|].
+        split; [apply accepted_le|]. split; [exact Hr|]. right. split; [congruence|].
         unfold wt_err. destruct (wt_term w) as [e|]; [now left|]. right.
         split; [reflexivity|]. split; [now apply accepted_short|reflexivity].
-      * destruct (wt_write_ok p w Hf) as (w' & Hw & Hf' & Hr & _ & _ & _ & Ht); [rewrite Hfa; congruence|].
-        exists (lenN p), None, w'. split; [exact Hw|]. split; [unfold wt_err; now rewrite Ht|].
+      * destruct (wt_write_ok p w Hf) as (w' & Hw & Hf' & Hr & _ & _ & _ & Ht & Hs'); [rewrite Hfa; congruence|].
+        exists (lenN p), None, w'. split; [exact Hw|]. split; [split; [unfold wt_err; now rewrite Ht|congruence]|].
         split; [lia|]. rewrite lenN_length, Nat2N.id, firstn_all. split; [exact Hr|]. left. auto.
-    + destruct (wt_write_ok p w Hf) as (w' & Hw & Hf' & Hr & _ & _ & _ & Ht); [rewrite Hfa; discriminate|].
-      exists (lenN p), None, w'. split; [exact Hw|]. split; [unfold wt_err; now rewrite Ht|].
+    + destruct (wt_write_ok p w Hf) as (w' & Hw & Hf' & Hr & _ & _ & _ & Ht & Hs'); [rewrite Hfa; discriminate|].
+      exists (lenN p), None, w'. split; [exact Hw|]. split; [split; [unfold wt_err; now rewrite Ht|congruence]|].
       split; [lia|]. rewrite lenN_length, Nat2N.id, firstn_all. split; [exact Hr|]. left. auto.
 Qed.
 
 (* ---------- the buffered writer: what was handed to it so far is either received or buffered --- *)
 (* [base]: what the peer had when we started looking; [sent]: the bytes handed to Write since *)
 Definition binv0 (base sent : bytes) (b : bufw) : Prop :=
-  (exists pre, wt_received (bw_under b) = base ++ pre) /\
+  (wt_sticky (bw_under b) = true /\ exists pre, wt_received (bw_under b) = base ++ pre) /\
   match bw_err b with
   | None => wt_received (bw_under b) ++ bw_buf b = base ++ sent /\
             bw_n b = lenN (bw_buf b) /\ bw_n b <= bufio_size
@@ -68,10 +68,10 @@ Proof.
     + split; [split; [exact Hpre|now rewrite He]|]. split; [reflexivity|]. split; [exact He|]. split; [exact H0|].
       destruct (wt_failed (bw_under b)) eqn:Hf; [|reflexivity]. specialize (Hg Hf He). lia.
     + assert (Hne : bw_buf b <> []) by (intros E; rewrite E in Hn; cbn in Hn; lia).
-      destruct (wt_write_cases (bw_buf b) (bw_under b) Hne) as (m & oe & u' & -> & Herr & Hm & Hr & Hc).
-      destruct Hpre as (pre & Hpre).
-      assert (Hpre' : exists pre', wt_received u' = base ++ pre')
-        by (exists (pre ++ firstn (N.to_nat m) (bw_buf b)); now rewrite Hr, Hpre, app_assoc).
+      destruct Hpre as (Hst & pre & Hpre).
+      destruct (wt_write_cases (bw_buf b) (bw_under b) Hne Hst) as (m & oe & u' & -> & (Herr & Hst') & Hm & Hr & Hc).
+      assert (Hpre' : wt_sticky u' = true /\ exists pre', wt_received u' = base ++ pre')
+        by (split; [exact Hst'|]; exists (pre ++ firstn (N.to_nat m) (bw_buf b)); now rewrite Hr, Hpre, app_assoc).
       destruct Hc as [(-> & -> & Hf')|(Hf' & [->|(-> & Hlt & Hsw)])].
       * (* everything written *)
         destruct (N.ltb_spec (lenN (bw_buf b)) (bw_n b)) as [H|_]; [lia|].
@@ -123,12 +123,12 @@ Proof.
       destruct (N.eqb_spec (bw_n b) 0) as [Hn0|Hn0].
       * (* empty buffer, large write: straight to the transport *)
         assert (Hbuf : bw_buf b = []) by (apply lenN_zero; lia). rewrite Hbuf, app_nil_r in Hs.
-        destruct (wt_write_cases p (bw_under b) Hp) as (m & oe & u' & Hw & Herr & Hm & Hr & Hc).
+        destruct (wt_write_cases p (bw_under b) Hp (proj1 Hpre)) as (m & oe & u' & Hw & (Herr & Hst') & Hm & Hr & Hc).
         rewrite Hw, split_at_spec.
         set (b1 := mk_bufw (bw_rev b) (bw_n b) oe u').
         assert (Hb1 : bw_buf b1 = []) by exact Hbuf.
-        assert (Hpre1 : exists pre', wt_received u' = base ++ pre')
-          by (destruct Hpre as (pre & Hpre); exists (pre ++ firstn (N.to_nat m) p); now rewrite Hr, Hpre, app_assoc).
+        assert (Hpre1 : wt_sticky u' = true /\ exists pre', wt_received u' = base ++ pre')
+          by (destruct Hpre as (_ & pre & Hpre); split; [exact Hst'|]; exists (pre ++ firstn (N.to_nat m) p); now rewrite Hr, Hpre, app_assoc).
         assert (Hinv1 : binv0 base (sent ++ firstn (N.to_nat m) p) b1).
         { split; [exact Hpre1|]. cbn [bw_err bw_under b1].
           destruct Hc as [(-> & -> & Hf')|(Hf' & [->|(-> & Hlt & Hsw)])].
@@ -226,12 +226,12 @@ Qed.
 
 (* a writer between two WriteMessage calls: nothing buffered, no error, transport healthy *)
 Definition clean (b : bufw) : Prop :=
-  bw_err b = None /\ bw_n b = 0 /\ wt_failed (bw_under b) = false.
+  bw_err b = None /\ bw_n b = 0 /\ wt_failed (bw_under b) = false /\ wt_sticky (bw_under b) = true.
 
 Lemma clean_binv0 b : clean b -> bw_buf b = [] -> binv0 (wt_received (bw_under b)) [] b /\ guard b.
 Proof.
-  intros (He & Hn & Hf) Hb. split.
-  - split; [exists []; now rewrite app_nil_r|]. rewrite He, Hb, !app_nil_r, Hn. split; [reflexivity|].
+  intros (He & Hn & Hf & Hst) Hb. split.
+  - split; [split; [exact Hst|]; exists []; now rewrite app_nil_r|]. rewrite He, Hb, !app_nil_r, Hn. split; [reflexivity|].
     split; [reflexivity|]. unfold bufio_size. lia.
   - intros H. congruence.
 Qed.
@@ -253,15 +253,15 @@ Proof.
   pose proof (bw_copies_inv R pieces [] b Hi Hg (proj1 Hc)) as Hcp. cbn [app] in Hcp.
   destruct (bw_copies pieces b) as [[e|] b1]; destruct Hcp as (Hi1 & Hg1 & Herr1 & Ho1).
   - split; [exact Herr1|]. destruct Hi1 as [Hpre H]. rewrite Ho1 in H. destruct H as (H1 & H2 & rest & H3).
-    split; [congruence|]. split; [exact H2|]. destruct Hpre as (pre & Hpre). exists pre, rest. auto.
+    split; [congruence|]. split; [exact H2|]. destruct Hpre as (_ & pre & Hpre). exists pre, rest. auto.
   - pose proof (bw_flush_inv R (concat pieces) b1 Hi1 Hg1) as Hfl.
     destruct (bw_flush b1) as [[e|] b2]; destruct Hfl as (Hi2 & Herr2 & Ho2).
     + split; [congruence|]. destruct Hi2 as [Hpre H]. rewrite Ho2 in H. destruct H as (H1 & H2 & rest & H3).
-      split; [congruence|]. split; [exact H2|]. destruct Hpre as (pre & Hpre). exists pre, rest. auto.
+      split; [congruence|]. split; [exact H2|]. destruct Hpre as (_ & pre & Hpre). exists pre, rest. auto.
     + split; [congruence|]. destruct Ho2 as (He2 & Hn2 & Hf2). destruct Hi2 as [Hpre H]. rewrite He2 in H.
       destruct H as (H1 & H2 & _).
       assert (Hb2 : bw_buf b2 = []) by (apply lenN_zero; lia).
-      split; [split; [exact He2|split; [exact Hn2|exact Hf2]]|]. split; [exact Hb2|].
+      split; [split; [exact He2|split; [exact Hn2|split; [exact Hf2|apply Hpre]]]|]. split; [exact Hb2|].
       now rewrite Hb2, app_nil_r in H1.
 Qed.
 
@@ -298,9 +298,9 @@ Proof.
 Qed.
 
 (* ---------- the same shape for io.Copy sequences on the raw transport ---------- *)
-Lemma copy_bytes_cases p w : wt_failed w = false ->
+Lemma copy_bytes_cases p w : wt_failed w = false -> wt_sticky w = true ->
   let '(oe, w') := copy_bytes p w in
-  wt_err w' = wt_err w /\
+  (wt_err w' = wt_err w /\ wt_sticky w' = true) /\
   match oe with
   | None => wt_failed w' = false /\ wt_received w' = wt_received w ++ p
   | Some e => e = wt_err w /\ wt_failed w' = true /\
@@ -308,9 +308,9 @@ Lemma copy_bytes_cases p w : wt_failed w = false ->
                                wt_received w ++ p = wt_received w' ++ rest
   end.
 Proof.
-  intros Hf. unfold copy_bytes. destruct p as [|x p].
+  intros Hf Hst. unfold copy_bytes. destruct p as [|x p].
   - rewrite app_nil_r. auto.
-  - destruct (wt_write_cases (x :: p) w ltac:(congruence)) as (m & oe & w' & -> & Herr & Hm & Hr & Hc).
+  - destruct (wt_write_cases (x :: p) w ltac:(congruence) Hst) as (m & oe & w' & -> & Herr & Hm & Hr & Hc).
     assert (Hsplit : wt_received w ++ x :: p = wt_received w' ++ skipn (N.to_nat m) (x :: p))
       by now rewrite Hr, <- app_assoc, firstn_skipn.
     destruct Hc as [(-> & -> & Hf')|(Hf' & [->|(-> & Hlt & Hsw)])].
@@ -321,9 +321,9 @@ Proof.
       split; [exact Herr|]. split; [now rewrite Hsw|]. split; [exact Hf'|]. eauto.
 Qed.
 
-Lemma copy_all_cases ps : forall w, wt_failed w = false ->
+Lemma copy_all_cases ps : forall w, wt_failed w = false -> wt_sticky w = true ->
   let '(oe, w') := copy_all ps w in
-  wt_err w' = wt_err w /\
+  (wt_err w' = wt_err w /\ wt_sticky w' = true) /\
   match oe with
   | None => wt_failed w' = false /\ wt_received w' = wt_received w ++ concat ps
   | Some e => e = wt_err w /\ wt_failed w' = true /\
@@ -331,18 +331,18 @@ Lemma copy_all_cases ps : forall w, wt_failed w = false ->
                                wt_received w ++ concat ps = wt_received w' ++ rest
   end.
 Proof.
-  induction ps as [|p ps IH]; intros w Hf; cbn [copy_all concat].
+  induction ps as [|p ps IH]; intros w Hf Hst; cbn [copy_all concat].
   - rewrite app_nil_r. auto.
-  - pose proof (copy_bytes_cases p w Hf) as Hc.
+  - pose proof (copy_bytes_cases p w Hf Hst) as Hc.
     destruct (copy_bytes p w) as [[e|] w1]; destruct Hc as (Herr1 & Hc).
     + destruct Hc as (He & Hf1 & pre & rest & H1 & H2). split; [exact Herr1|]. split; [exact He|].
       split; [exact Hf1|]. exists pre, (rest ++ concat ps). split; [exact H1|].
       now rewrite !app_assoc, H2.
-    + destruct Hc as (Hf1 & Hr1). specialize (IH w1 Hf1).
-      destruct (copy_all ps w1) as [[e|] w2]; destruct IH as (Herr2 & IH).
-      * destruct IH as (He & Hf2 & pre & rest & H1 & H2). split; [congruence|]. split; [congruence|].
+    + destruct Hc as (Hf1 & Hr1). destruct Herr1 as (Herr1 & Hst1). specialize (IH w1 Hf1 Hst1).
+      destruct (copy_all ps w1) as [[e|] w2]; destruct IH as ((Herr2 & Hst2) & IH).
+      * destruct IH as (He & Hf2 & pre & rest & H1 & H2). split; [split; congruence|]. split; [congruence|].
         split; [exact Hf2|]. exists (p ++ pre), rest. rewrite Hr1, <- !app_assoc in H1, H2. auto.
-      * destruct IH as (Hf2 & Hr2). split; [congruence|]. split; [exact Hf2|].
+      * destruct IH as (Hf2 & Hr2). split; [split; congruence|]. split; [exact Hf2|].
         now rewrite Hr2, Hr1, <- app_assoc.
 Qed.
 
@@ -358,20 +358,20 @@ Definition session_ok (R : bytes) (ops : list (list bytes)) (n0 n : N) (oe : opt
                 R ++ concat (concat (firstn (Datatypes.S k) ops)) = wt_received w ++ rest
   end.
 
-Lemma run_wops_cases ops : forall w n, wt_failed w = false ->
+Lemma run_wops_cases ops : forall w n, wt_failed w = false -> wt_sticky w = true ->
   let '(n', oe, w') := run_wops ops w n in
-  wt_err w' = wt_err w /\ session_ok (wt_received w) ops n n' oe (wt_err w) w'.
+  (wt_err w' = wt_err w /\ wt_sticky w' = true) /\ session_ok (wt_received w) ops n n' oe (wt_err w) w'.
 Proof.
-  induction ops as [|o ops IH]; intros w n Hf; cbn [run_wops].
+  induction ops as [|o ops IH]; intros w n Hf Hst; cbn [run_wops].
   - unfold session_ok. cbn. rewrite app_nil_r, N.add_0_r. auto.
-  - pose proof (copy_all_cases o w Hf) as Hc.
+  - pose proof (copy_all_cases o w Hf Hst) as Hc.
     destruct (copy_all o w) as [[e|] w1]; destruct Hc as (Herr1 & Hc).
     + destruct Hc as (He & Hf1 & pre & rest & H1 & H2). split; [exact Herr1|].
       split; [exact He|]. split; [exact Hf1|]. exists 0%nat. rewrite N.add_0_r. split; [reflexivity|].
       split; [cbn; lia|]. exists pre, rest. cbn [firstn concat app]. rewrite app_nil_r. auto.
-    + destruct Hc as (Hf1 & Hr1). specialize (IH w1 (N.succ n) Hf1).
-      destruct (run_wops ops w1 (N.succ n)) as [[n' oe] w']. destruct IH as (Herr2 & IH).
-      split; [congruence|]. unfold session_ok in *. destruct oe as [e|].
+    + destruct Hc as (Hf1 & Hr1). destruct Herr1 as (Herr1 & Hst1). specialize (IH w1 (N.succ n) Hf1 Hst1).
+      destruct (run_wops ops w1 (N.succ n)) as [[n' oe] w']. destruct IH as ((Herr2 & Hst2) & IH).
+      split; [split; congruence|]. unfold session_ok in *. destruct oe as [e|].
       * destruct IH as (He & Hf2 & k & Hn & Hk & pre & rest & H1 & H2).
         split; [congruence|]. split; [exact Hf2|]. exists (Datatypes.S k).
         split; [lia|]. split; [cbn; lia|]. exists pre, rest.
@@ -432,15 +432,15 @@ Theorem rtmp_write_session_spec hs ms fa m term :
 Proof.
   intros w0. unfold rtmp_write_session, rtmp_wops.
   assert (Hf0 : wt_failed w0 = false) by reflexivity.
-  assert (P2 : forall w1 n1, wt_failed w1 = false -> wt_err w1 = wt_err w0 ->
+  assert (P2 : forall w1 n1, wt_failed w1 = false -> (wt_err w1 = wt_err w0 /\ wt_sticky w1 = true) ->
     let '(n2, e2, b) := rtmp_write_ops (msgs_write_ops DEFCHUNK ms) (bufw_new w1) n1 in
     session_ok (wt_received w1) (msgs_write_ops DEFCHUNK ms) n1 n2 e2 (wt_err w0) (bw_under b)).
-  { intros w1 n1 Hf1 He1.
+  { intros w1 n1 Hf1 (He1 & Hst1).
     pose proof (rtmp_write_ops_cases (msgs_write_ops DEFCHUNK ms) (bufw_new w1) n1) as H.
-    cbn [bufw_new bw_under] in H. rewrite He1 in H. apply H; [split; [reflexivity|split; [reflexivity|exact Hf1]]|reflexivity]. }
+    cbn [bufw_new bw_under] in H. rewrite He1 in H. apply H; [split; [reflexivity|split; [reflexivity|split; [exact Hf1|exact Hst1]]]|reflexivity]. }
   destruct hs.
   - rewrite raw_copies_wops. change (map (fun k => [zeros k]) [1; 1536; 1536]) with hs_wops.
-    pose proof (run_wops_cases hs_wops w0 0 Hf0) as H1.
+    pose proof (run_wops_cases hs_wops w0 0 Hf0 eq_refl) as H1.
     destruct (run_wops hs_wops w0 0) as [[n1 e1] w1]. destruct H1 as (Herr1 & H1).
     change (wt_received w0) with (@nil N) in H1.
     destruct e1 as [e|].
@@ -448,7 +448,7 @@ Proof.
     + specialize (P2 w1 n1 (proj1 (proj2 H1)) Herr1).
       destruct (rtmp_write_ops (msgs_write_ops DEFCHUNK ms) (bufw_new w1) n1) as [[n2 e2] b].
       exact (session_ok_app [] hs_wops _ 0 n1 n2 e2 (wt_err w0) w1 (bw_under b) H1 P2).
-  - cbn [app]. specialize (P2 w0 0 Hf0 eq_refl).
+  - cbn [app]. specialize (P2 w0 0 Hf0 (conj eq_refl eq_refl)).
     destruct (rtmp_write_ops (msgs_write_ops DEFCHUNK ms) (bufw_new w0) 0) as [[n2 e2] b]. exact P2.
 Qed.
 
